@@ -97,6 +97,9 @@ func GetAllSporks(context db.DB) []*Spork {
 			common.DealWithErr(iterator.Error())
 			break
 		}
+		if len(iterator.Value()) == 0 {
+			continue
+		}
 		spork := parseSporkInfo(iterator.Value())
 		sporks = append(sporks, spork)
 	}
